@@ -47,7 +47,7 @@ var c19Base = time.Date(2024, 1, 2, 3, 4, 5, 0, time.UTC)
 
 type c19Body struct {
 	ID    int64  `json:"id"`
-	Class string `json:"class"` // valid | unknown | duplicate | invalid
+	Class string `json:"class"` // valid | unknown | duplicate | invalid | both (unknown and duplicate)
 	Alt   bool   `json:"alt,omitempty"`
 }
 
@@ -63,6 +63,11 @@ func (b c19Body) text() string {
 			return fmt.Sprintf(`{"bogus":{"status":{"a":0}},"status":{"a":%d},"children":[]}`, b.ID)
 		}
 		return fmt.Sprintf(`{"status":{"a":%d},"children":[],"bogus":1}`, b.ID)
+	case "both":
+		if b.Alt {
+			return fmt.Sprintf(`{"bogus":1,"status":{"a":0},"status":{"a":%d},"children":[]}`, b.ID)
+		}
+		return fmt.Sprintf(`{"status":{"a":%d},"children":[],"children":[],"bogus":1}`, b.ID)
 	case "duplicate":
 		if b.Alt {
 			return fmt.Sprintf(`{"status":{"a":0},"status":{"a":%d},"children":[]}`, b.ID) // last value wins
@@ -77,7 +82,8 @@ func (b c19Body) text() string {
 }
 
 func (b c19Body) coq() string {
-	cl := map[string]string{"valid": "BValid", "unknown": "BUnknownField", "duplicate": "BDuplicateField", "invalid": "BInvalidJson"}[b.Class]
+	cl := map[string]string{"valid": "BValid", "unknown": "BUnknownField", "duplicate": "BDuplicateField", "invalid": "BInvalidJson",
+		"both": "BUnknownAndDuplicate"}[b.Class]
 	return fmt.Sprintf("(mkBody %s %s)", vh.CoqZ(b.ID), cl)
 }
 
@@ -105,6 +111,9 @@ func c19LibraryClass(text string) string {
 		return "duplicate"
 	case unknown && !dup:
 		return "unknown"
+	}
+	if unknown && dup {
+		return "both"
 	}
 	return "mixed"
 }
@@ -542,6 +551,30 @@ func (cs *c19Case) keys() []int {
 	return out
 }
 
+// classes of the bodies that exist paired with this ETag under this key (initial entry, 200 answers)
+func (cs *c19Case) replayClasses(key int, etag string) []string {
+	seen := map[string]bool{}
+	var out []string
+	add := func(c string) {
+		if !seen[c] {
+			seen[c] = true
+			out = append(out, c)
+		}
+	}
+	for _, in := range cs.Init {
+		if in.Key == key && in.ETag == etag {
+			add(in.Body.Class)
+		}
+	}
+	for _, c := range cs.Calls {
+		if c.Key == key && !c.Reply.Transport && c.Reply.Status == 200 && c.Reply.ETag == etag {
+			add(c.Reply.Body.Class)
+		}
+	}
+	sort.Strings(out)
+	return out
+}
+
 func (cs *c19Case) bodies() []c19Body {
 	var out []c19Body
 	for _, in := range cs.Init {
@@ -656,7 +689,7 @@ var c19Statuses = []int{200, 201, 204, 304, 400, 404, 412, 429, 500, 503}
 var c19RAShapes = []c19Reply{
 	{RA: "absent"}, {RA: "num", RAN: 7}, {RA: "date", RAN: 3}, {RA: "garbage"}, {RA: "huge"},
 }
-var c19Classes = []string{"valid", "unknown", "duplicate", "invalid"}
+var c19Classes = []string{"valid", "unknown", "duplicate", "invalid", "both"}
 var c19Modes = []string{"nil", "loose", "strict"}
 var c19CacheStates = []string{"empty", "hit", "expired-before", "expired-mid"}
 
@@ -799,6 +832,52 @@ func c19Sched(n, idx int) *c19Case {
 	return cs
 }
 
+// strict-replay family (always run in full): a 200 answer carrying an ETag and a
+// body with an unknown field / a duplicate field / both, followed by one or two
+// calls that are answered 304 / 412 for exactly that ETag, so that the offending
+// body is replayed from the cache.  x mode x initial cache x {sequential through
+// newWebhookExecutor | follow-ups overlapping, through NewWebhookExecutor}.
+var c19ReplayClasses = []string{"unknown", "duplicate", "both"}
+var c19ReplayFollow = [][]int{{304}, {412}, {304, 412}, {412, 304}}
+
+func c19NumReplays() int {
+	return len(c19ReplayClasses) * 2 * len(c19ReplayFollow) * len(c19Modes) * 2 * 2
+}
+
+func c19Replay(idx int) *c19Case {
+	pick := func(n int) int { r := idx % n; idx /= n; return r }
+	class := c19ReplayClasses[pick(len(c19ReplayClasses))]
+	alt := pick(2) == 1
+	follow := c19ReplayFollow[pick(len(c19ReplayFollow))]
+	mode := c19Modes[len(c19Modes)-1-pick(len(c19Modes))] // strict first
+	hit := pick(2) == 1
+	variant := pick(2)
+	cs := &c19Case{Family: "strict-replay", Etag: true, Mode: mode, NowFracMs: 250, ExpireHow: "ttl", CleanupSec: -1, TimeoutSec: -1,
+		CacheState: "empty"}
+	if hit {
+		cs.CacheState = "hit"
+		cs.Init = []c19Init{{Key: 7, ETag: "e1", Body: c19B1}}
+	}
+	cs.Calls = []c19Call{{Key: 7, Reply: c19Reply{Status: 200, ETag: "e5", RA: "absent",
+		Body: c19Body{ID: c19ClassID(5, class), Class: class, Alt: alt}}}}
+	cs.Sched = c19Steps3(0)
+	for _, st := range follow {
+		cs.Calls = append(cs.Calls, c19Call{Key: 7, Reply: c19Reply{Status: st, RA: "absent", Body: c19Body{ID: 63, Class: "invalid"}}})
+	}
+	if variant == 0 || len(follow) == 1 {
+		for i := range follow {
+			cs.Sched = append(cs.Sched, c19Steps3(i+1)...)
+		}
+	} else { // both follow-ups in flight at once
+		cs.Sched = append(cs.Sched, c19Ev{Call: 1}, c19Ev{Call: 2}, c19Ev{Call: 2}, c19Ev{Call: 1}, c19Ev{Call: 2}, c19Ev{Call: 1})
+	}
+	if variant == 1 {
+		cs.Public = true
+		cs.TimeoutSec = 600
+	}
+	return cs
+}
+
 // random family: 1-4 calls, one or two keys, full three-step interleavings,
 // expiry anywhere, every reply shape; `hostile` raises the share of odd inputs
 func c19Random(r *vh.Rng, hostile bool) *c19Case {
@@ -824,7 +903,7 @@ func c19Random(r *vh.Rng, hostile bool) *c19Case {
 	newBody := func() c19Body {
 		class := "valid"
 		if r.Chance(1, 3) {
-			class = c19Classes[r.Intn(4)]
+			class = c19Classes[r.Intn(len(c19Classes))]
 		}
 		b := c19Body{ID: c19ClassID(nextID, class), Class: class, Alt: r.Chance(1, 3)}
 		nextID++
@@ -995,6 +1074,16 @@ func c19Corpus() []*c19Case {
 	pub3 := *out[0]
 	pub3.Public = true
 	out = append(out, &pub3)
+	// strict + ETag: a rejected-but-cached body with a duplicate field / with both kinds of strict
+	// error must be rejected again when 304 / 412 replays it (and accepted in loose mode)
+	r412 := c19Reply{Status: 412, RA: "absent", Body: c19Body{ID: 63, Class: "invalid"}}
+	dupE := c19Reply{Status: 200, ETag: "e5", RA: "absent", Body: c19Body{ID: 52, Class: "duplicate"}}
+	bothE := c19Reply{Status: 200, ETag: "e5", RA: "absent", Body: c19Body{ID: 54, Class: "both"}}
+	out = append(out,
+		mk(true, "strict", nil, []c19Call{{Key: 7, Reply: dupE}, {Key: 7, Reply: r304}}, steps(0, 0, 0, 1, 1, 1)),
+		mk(true, "strict", nil, []c19Call{{Key: 7, Reply: bothE}, {Key: 7, Reply: r412}, {Key: 7, Reply: r304}}, steps(0, 0, 0, 1, 1, 1, 2, 2, 2)),
+		mk(true, "loose", nil, []c19Call{{Key: 7, Reply: bothE}, {Key: 7, Reply: r412}}, steps(0, 0, 0, 1, 1, 1)),
+		mk(false, "strict", nil, one(c19Reply{Status: 200, RA: "absent", Body: c19Body{ID: 54, Class: "both", Alt: true}}), c19Steps3(0)))
 	pub4 := *out[5]
 	pub4.Public, pub4.TimeoutSec, pub4.CleanupSec = true, 600, -1
 	out = append(out, &pub4)
@@ -1134,6 +1223,12 @@ func TestVerif_C19(t *testing.T) {
 			if s.kind == "ok" && !c.Reply.Transport && c.Reply.Status != 200 {
 				w.Count("served-from-cache")
 			}
+			if !c.Reply.Transport && (c.Reply.Status == 304 || c.Reply.Status == 412) && s.sent != "" {
+				// which body would a replay use? (the entry cached with the ETag sent, by the case's own data)
+				for _, cl := range cs.replayClasses(c.Key, s.sent) {
+					w.Count("replay-" + fmt.Sprint(c.Reply.Status) + "-of-" + cl + "-body-mode-" + cs.Mode)
+				}
+			}
 			if s.started && !c.Reply.Transport && !s.closed {
 				w.Count("response-body-not-closed")
 			}
@@ -1169,6 +1264,8 @@ func TestVerif_C19(t *testing.T) {
 			cs = c19Sched(2, rf.Case.Index)
 		case "interleave-3":
 			cs = c19Sched(3, rf.Case.Index)
+		case "strict-replay":
+			cs = c19Replay(rf.Case.Index)
 		}
 		if cs == nil {
 			t.Fatalf("replay file %s holds no C19 case", env.Replay)
@@ -1194,6 +1291,11 @@ func TestVerif_C19(t *testing.T) {
 			emit(fmt.Sprintf("h%d", i), c19Random(r, true), seed, -1)
 		}
 	} else {
+		nR := c19NumReplays()
+		for i := 0; i < nR; i++ {
+			emit(fmt.Sprintf("r%d", i), c19Replay(i), 0, i)
+		}
+		w.Counts["enumeration-strict-replay"] = nR
 		nS, n2, n3 := c19NumSingles(), c19NumScheds(2), c19NumScheds(3)
 		nRandom := n / 10
 		exhaustive := nS+n2+n3+nRandom <= n
